@@ -78,13 +78,14 @@ Proof.
   exact (fill_true_filled _ _ _ _ _ Ef _ Hh C).
 Qed.
 
-Lemma scan_posts_full : forall p now timeout l keep tmo e pub blk,
-  scan p now timeout l = Ok (keep, tmo, e) -> In (Post pub blk) e -> no_nil (b_txs blk).
+Lemma scan_posts_full : forall nv p now timeout l keep tmo e pub blk,
+  scan nv p now timeout l = Ok (keep, tmo, e) -> In (Post pub blk) e -> no_nil (b_txs blk).
 Proof.
-  intros p now timeout l. induction l as [|pd l IH]; intros keep tmo e pub blk H Hin; simpl in H.
+  intros nv p now timeout l. induction l as [|pd l IH]; intros keep tmo e pub blk H Hin; simpl in H.
   - inversion H; subst. destruct Hin.
   - destruct (build p pd) as [[[pd' b] e0]| |] eqn:Eb; try discriminate.
-    destruct (scan p now timeout l) as [[[k t] e']| |] eqn:Es; try discriminate.
+    destruct (nv && posted e0); [discriminate|].
+    destruct (scan nv p now timeout l) as [[[k t] e']| |] eqn:Es; try discriminate.
     assert (In (Post pub blk) (e0 ++ e')) as Hin'.
     { destruct b; [inversion H; subst; exact Hin|].
       destruct (timeout <=? _); inversion H; subst; exact Hin. }
@@ -121,7 +122,7 @@ Proof.
     intros j C. apply nth_error_In, in_map_iff in C as [t [C _]]. discriminate.
   - destruct (mp_push hs sh shcap t (w_mp w)). inversion H; subst. destruct Hin.
   - inversion H; subst. destruct Hin.
-  - unfold tick_raw in H. destruct (scan (mp_idx (w_mp w)) now (c_timeout c) (st_pend (w_st w))) as [[[k t] e0]| |] eqn:Es;
+  - unfold tick_raw in H. destruct (scan (c_noval c) (mp_idx (w_mp w)) now (c_timeout c) (st_pend (w_st w))) as [[[k t] e0]| |] eqn:Es;
       simpl in H; try discriminate. inversion H; subst.
     apply in_app_or in Hin as [A|A]; [eapply scan_posts_full; eauto|exfalso; eapply requests_no_post; eauto].
   - inversion H; subst. destruct Hin.
